@@ -190,6 +190,10 @@ def eval_function(fn: ast.FunctionDef) -> Poly:
                 return poly_of(st.value, env)
             elif isinstance(st, ast.Pass):
                 continue
+            elif isinstance(st, ast.Expr) and (isinstance(st.value, ast.Constant) or (isinstance(st.value, ast.Call) and not any(isinstance(x, ast.Name) and x.id in env for x in ast.walk(st.value.func)))):
+                # a docstring, or a call for effect on something that is not one of the
+                # function's own values (logging, warnings): no influence on the result
+                continue
             else:
                 raise NotLinear(f"unsupported statement: {ast.unparse(st)[:60]}")
         return None
